@@ -548,7 +548,7 @@ def gen_search_cfg(rng, thorough=False):
     clipping = "flat" if mode == "ghost" else rng.choice(R.CLIPPINGS)
     archs = None
     if mode == "ghost":
-        archs = ["mlp", "seq", "lin", "emb", "embseq", "conv", "ln", "gn"]
+        archs = ["mlp", "seq", "lin", "emb", "embseq", "conv", "ln", "gn", "lnre"]
     spec = R.gen_spec(rng, archs=archs, ghost_safe=(mode == "ghost"))
     if rng.random() < 0.15:
         # a parameter with two uses in one forward pass: hooks / functorch / ew sum both uses; ghost clipping computes one
